@@ -201,10 +201,15 @@ class FakeSelector:
 
 
 def make_session_class(world):
+    """`world`: a World, or a holder dict {'world': <the World of the connection being made>} - one session class for a whole
+       chain of connections (as an application / persist() uses one class), looked up when `_connect` runs"""
+    holder = world if isinstance(world, dict) else {'world': world}
+
     class SimSession(WebsocketSession):
         _selector_cls = FakeSelector
 
         def _connect(self):
+            world = holder['world']
             c = world.sc.conn
             if c == 'sockfail':
                 self._socket_fail('unable to connect')
@@ -574,13 +579,14 @@ def run_chain(scs, worlds=None):
         cur['world'] = World(scs[0])
         sc0 = scs[0]
         ws = WebSocket(sc0.url, proxies={}, protocols=sc0.protocols or None, compress=sc0.compress)
+        chain_cls = make_session_class(cur)       # ONE session class for all connections of the object
         for sc in scs:
             world = World(sc)
             world.canon_write = _canon_write_factory(world)
             cur['sc'], cur['world'] = sc, world
             if worlds is not None:
                 worlds.append(world)
-            out.append(_run_one(ws, sc, world, held))
+            out.append(_run_one(ws, sc, world, held, chain_cls))
     finally:
         if held:
             del held[:]
@@ -589,10 +595,10 @@ def run_chain(scs, worlds=None):
     return out
 
 
-def _run_one(ws, sc, world, held=None):
+def _run_one(ws, sc, world, held=None, sess_cls=None):
     gen = None
     try:
-        sess_cls = make_session_class(world)
+        sess_cls = sess_cls or make_session_class(world)
         kwargs = dict(session_class=sess_cls, poll=float(sc.poll) / sc.tdiv, ping_rate=float(sc.prate) / sc.tdiv,
                       ping_timeout=(float(sc.ptimeout) / sc.tdiv if (sc.ptimeout or sc.zero) else None),
                       auto_pong=sc.autopong,
